@@ -2687,7 +2687,10 @@ fn generate_constraints_expr(
             }
         }
         ExprKind::TaskBlock(block) => {
+            // the body of a task is not inside the loops that surround the task
+            ctx.loop_stack.push(None);
             generate_constraints_expr(ctx, polyvar_scope, Mode::Syn, block);
+            ctx.loop_stack.pop();
             constrain(
                 ctx,
                 &node_ty,
@@ -2751,6 +2754,8 @@ fn generate_constraints_expr(
         }
         ExprKind::AnonymousFunction(args, out_annot, body) => {
             let func_node = expr.node();
+            // the body of a lambda is not inside the loops that surround the lambda
+            ctx.loop_stack.push(None);
             let ty_func = generate_constraints_func_def_helper(
                 ctx,
                 func_node,
@@ -2759,6 +2764,7 @@ fn generate_constraints_expr(
                 out_annot,
                 body,
             );
+            ctx.loop_stack.pop();
 
             constrain(ctx, &node_ty, &ty_func);
         }
